@@ -152,3 +152,62 @@ Proof.
   - intros [] []; reflexivity.
   - intros []; reflexivity.
 Qed.
+
+(* ---- Part C: the location handed to the multiplexor decomposition, ANY target position ------------- *)
+From Coq Require Import ZArith List Arith Lia Permutation.
+Import ListNotations.
+
+Theorem mgd_loc_spec t loc : t < length loc ->
+  removelast (mgd_loc t loc) = selects t loc /\ last (mgd_loc t loc) O = nth t loc O
+  /\ Permutation loc (mgd_loc t loc).
+Proof.
+  intros H. unfold mgd_loc, selects. rewrite app_assoc. split; [|split].
+  - apply removelast_last.
+  - apply last_last.
+  - rewrite <- app_assoc.
+    rewrite <- (firstn_skipn t loc) at 1.
+    apply Permutation_app_head.
+    assert (E : skipn t loc = nth t loc O :: skipn (S t) loc).
+    { clear -H. revert t H. induction loc as [|x l IH]; intros t H; simpl in H; [lia|].
+      destruct t; simpl; auto. apply IH. lia. }
+    rewrite E. apply Permutation_cons_append.
+Qed.
+
+(* the cyclic rotation agrees with it exactly when the target is first or last ... *)
+Theorem rot_loc_first loc : loc <> [] -> rot_loc 0 loc = mgd_loc 0 loc.
+Proof. unfold rot_loc, mgd_loc. destruct loc; [congruence | reflexivity]. Qed.
+Theorem rot_loc_last loc : loc <> [] -> rot_loc (length loc - 1) loc = mgd_loc (length loc - 1) loc.
+Proof.
+  intros H. unfold rot_loc, mgd_loc.
+  assert (E : S (length loc - 1) = length loc) by (destruct loc; [congruence | simpl; lia]).
+  rewrite E, skipn_all, firstn_all. simpl.
+  rewrite <- (firstn_skipn (length loc - 1) loc) at 1. f_equal.
+  assert (L : length (skipn (length loc - 1) loc) = 1) by (rewrite skipn_length; lia).
+  destruct (skipn (length loc - 1) loc) as [|x [|y r]] eqn:S1; try discriminate.
+  f_equal. rewrite <- (firstn_skipn (length loc - 1) loc) at 2.
+  rewrite app_nth2 by (rewrite firstn_length; lia).
+  rewrite firstn_length, Nat.min_l by lia. rewrite Nat.sub_diag, S1. reflexivity.
+Qed.
+(* ... and not in between: the select qudits come out permuted (the seeded change C10-A) *)
+Theorem rot_loc_middle_refuted : removelast (rot_loc 1 [7; 8; 9]) <> selects 1 [7; 8; 9].
+Proof. discriminate. Qed.
+
+(* ---- Part D: one level of multiplexor decomposition, per value of the remaining selects ---------------
+   R : angle -> operator on the target (RY or RZ), X = the NOT conjugating it to the opposite
+   angle.  Emitted, in program order: R(l); CNOT; R(r); CNOT.  On the branch where the first
+   select is 0 the CNOTs act as identity, on the branch 1 as X. *)
+Section Multiplexor.
+Variable M : Type.
+Variables (mul : M -> M -> M) (one : M) (X : M) (R : Z -> M).
+Hypothesis mul_assoc : forall x y z, mul x (mul y z) = mul (mul x y) z.
+Hypothesis mul_1_l : forall x, mul one x = x.
+Hypothesis R_add : forall a b, mul (R a) (R b) = R (a + b)%Z.
+Hypothesis X_conj : forall a, mul X (mul (R a) X) = R (- a)%Z.
+
+Theorem mpx_branch0 l r : mul (R r) (R l) = R (l + r)%Z.
+Proof. rewrite R_add. f_equal. apply Z.add_comm. Qed.
+Theorem mpx_branch1 l r : mul X (mul (R r) (mul X (R l))) = R (l - r)%Z.
+Proof.
+  rewrite (mul_assoc (R r)), (mul_assoc X). rewrite X_conj, R_add. f_equal. lia.
+Qed.
+End Multiplexor.
